@@ -41,7 +41,7 @@ func (m *c11Mon) section(s *c11State, add int, yield bool) {
 // (1) mutual exclusion and no lost update with parallel nodes, in Pregel / DAG / Workflow (eager) mode
 func c11Parallel(mode int) {
 	ctx := context.Background()
-	vcfg("preempt", 2+vtier())
+	vcfg("preempt", 2+2*vtier())
 	vcfg("race", 1)
 	mon := &c11Mon{}
 	da, db, dp, dq := vsymInt("da"), vsymInt("db"), vsymInt("dp"), vsymInt("dq")
